@@ -8,6 +8,7 @@ import common as C
 def run(ctx):
     thorough = ctx.tier == "thorough"
     mc = C.run_tlc(ctx, "Transport", "Transport3.cfg" if thorough else "Transport.cfg", workers=C.NCPU, timeout=1800)
+    C.run_tlc(ctx, "Transport", "TransportDevHeaderBeforeRefusal.cfg", workers=4, expect_violation=True, timeout=300, tag="sensitivity:HeaderBeforeRefusal")
     C.run_tlc(ctx, "Transport", "TransportDevShort.cfg", workers=4, expect_violation=True, timeout=300,
               tag="sensitivity:ShortRead")
     runs = os.path.join(ctx.wd, "transport_runs.ndjson")
@@ -33,6 +34,9 @@ def run(ctx):
         sig = "%s:%s:%s" % (b["kind"], x["level"], x["mode"])
         if x["op"] == "write":
             detail = "WriteMsg of %d bytes in %s mode put announcement %s header %s on the wire" % (x["len"], x["mode"], x["ann"], x["hdr"])
+        elif x["op"] == "writeseq":
+            detail = "WriteMsg calls of %s bytes in %s mode were accepted %s and left %d bytes on the wire (first 24: %s): not the announcement followed by the frames of the accepted messages" % (
+                x["sent"], x["mode"], x["oks"], len(x["wire"]), x["wire"][:24])
         else:
             detail = "%s-level read, %s, sent lengths %s (codes %s) cut at %s closed at %s: surfaced %s" % (
                 x["level"], x["mode"], x["sent"], x["codes"], x["cuts"], x["close"], x["got"])
